@@ -123,6 +123,12 @@ func runScenario(sc *scen.Scenario) ([]scen.Outcome, []scen.ModelRun) {
 	mrs := make([]scen.ModelRun, 0, runs)
 	for i := 0; i < runs; i++ {
 		outs = append(outs, x.RunOnce())
+		if sc.Inject.OneRun && sc.Inject.Run == i && sc.Inject.Kind != "" {
+			// this run is cancelled: the model does not predict it, it only follows what the run consumed
+			m.AfterObservedRun(&outs[i])
+			mrs = append(mrs, scen.ModelRun{Trunc: true})
+			continue
+		}
 		mrs = append(mrs, m.Run())
 	}
 	return outs, mrs
@@ -137,7 +143,15 @@ func judgeFor(c *Cfg, prop, family string, sc *scen.Scenario) ([]scen.Outcome, [
 		for _, e := range outs[i].Events {
 			c.Rep.Count("events."+e.Phase, 1)
 		}
-		for _, f := range scen.Judge(sc, &mrs[i], &outs[i]) {
+		jsc := sc
+		if sc.Inject.OneRun {
+			if sc.Inject.Run == i {
+				continue // the cancelled run itself is C05's subject
+			}
+			jsc = sc.Clone()
+			jsc.Inject = scen.Inject{}
+		}
+		for _, f := range scen.Judge(jsc, &mrs[i], &outs[i]) {
 			if f.Prop != prop {
 				continue
 			}
@@ -177,7 +191,16 @@ func replayScenario(c *Cfg, prop string, spec json.RawMessage) {
 			b, _ := json.Marshal(e)
 			fmt.Println("   ", string(b))
 		}
-		for _, f := range scen.Judge(cs.Scenario, &mrs[i], &outs[i]) {
+		jsc := cs.Scenario
+		if jsc.Inject.OneRun {
+			if jsc.Inject.Run == i {
+				fmt.Println("  (the cancelled run: not judged here)")
+				continue
+			}
+			jsc = jsc.Clone()
+			jsc.Inject = scen.Inject{}
+		}
+		for _, f := range scen.Judge(jsc, &mrs[i], &outs[i]) {
 			mark := " "
 			if f.Prop == prop {
 				mark = "*"
